@@ -18,7 +18,7 @@ MANIFEST = dict(
     text="Bounded symbolic model checking of AsyncDispatcher.dispatch on batches under EVERY interleaving: methods, a middleware and an error handler are coroutines that suspend on fresh futures; "
          "a driver resolves one pending future per step, chosen by a symbolic integer, so the solver's path tree enumerates the schedules (2 x 2, 3 x 1, 3 x 2 [90 schedules], 4 x 1 elements x suspension points in the quick tier; 4 x 2 [2520], 3 x 3 [1680], 5 x 1 in the thorough tier) "
          "and exhaustion = all schedules. Elements include failing ones, notifications and plain non-coroutine methods; ids are symbolic. "
-         "Oracle: response array in request order, each with its own id and own result / error, every method ran exactly once; with concurrent_batch=False at most one element in flight and start order == request order.",
+         "Handler table: a catch-all handler plus one handler per failing element's error code (each must run exactly once, for its own element). Oracle: response array in request order, each with its own id and own result / error, every method ran exactly once; with concurrent_batch=False at most one element in flight and start order == request order.",
     ref='5 C10',
     note="Real asyncio event loop (trusted). The driver waits a fixed number of loop turns before each choice; if a task were slower to reach its next suspension point than that, fewer (never wrong) schedules would be explored. "
          "Suspension points per element <= 3.",
@@ -151,7 +151,15 @@ def h_sched(ob):
                     await suspend(('eh', request.params[0], p))
             return error
 
-        d = pjrpc.server.AsyncDispatcher(middlewares=[mw], error_handlers={None: [eh]}, concurrent_batch=ob['conc'],
+        seen_by_code = []
+
+        async def eh_code(request, context, error):
+            seen_by_code.append((request.params[0], error.code))
+            return error
+
+        # catch-all handler plus one handler per failing element's code (built with a comprehension: symbolic-safe)
+        table = {k: v for k, v in [(None, [eh])] + [(1000 + i, [eh_code]) for i in range(n)]}
+        d = pjrpc.server.AsyncDispatcher(middlewares=[mw], error_handlers=table, concurrent_batch=ob['conc'],
                                          **wire.kwargs())
         d.add(co, name='co')
         d.add(fail, name='fail')
@@ -216,6 +224,9 @@ def h_sched(ob):
                 raise Violation('responses-mixed-up-or-out-of-order', (got, want))
             if tuple(out[1]) != tuple(r['error']['code'] if 'error' in r else 0 for r in want):
                 raise Violation('codes-out-of-order', (out[1], want))
+        fails = sorted(i for i, k in enumerate(ob['els']) if k == 'fail')
+        if sorted(seen_by_code) != [(i, 1000 + i) for i in fails]:
+            raise Violation('per-code-error-handler-runs', (seen_by_code, fails))
         if not ob['conc']:
             if inflight[1] > 1:
                 raise Violation('sequential-mode-overlap', trace)
